@@ -221,7 +221,8 @@ def finish(cx, error=None):
         status = 1
     if error is not None:
         out.append('ANALYSIS-ERROR property=%s %s' % (pid, error))
-        status = 2
+        if status == 0:
+            status = 2
     n_ob = len(cx.obligations)
     n_ok = n_ob - len(cx.violations)
     distinct = len({(o['rule'], o['instance']) for o in cx.obligations})
